@@ -302,7 +302,10 @@ def model_proj(m, reporter):
         elif reporter == "cdash":
             pass
     if reporter in ("xml", "libxml"):
-        return sorted(f"case {'/'.join(c['path'][:-1])} {c['path'][-1]} fail={c['fail']} err={c['err']} skip={c['skip']}" for c in out)
+        lines = sorted(f"case {'/'.join(c['path'][:-1])} {c['path'][-1]} fail={c['fail']} err={c['err']} skip={c['skip']}" for c in out)
+        if reporter == "libxml":      # the libxml2 reporter also writes each suite's own counts as attributes of <testsuite>
+            lines += sorted(f"suite {'-'.join(w[1].split('/'))} fail={w[3]} err={w[5]} skip={w[4]}" for w in m.out if w[0] == "suiteEnd")
+        return lines
     return out
 
 
@@ -362,6 +365,8 @@ def impl_proj(o, reporter, top="top"):
     elif reporter in ("xml", "libxml"):
         cases, errors = xml_testcases(o)
         out = sorted(f"case {c[0]} {c[1]} fail={c[2]} err={c[3]} skip={c[4]}" for c in cases)
+        if reporter == "libxml":
+            out += sorted(f"suite {a.get('name', '')} fail={a.get('failures', '?')} err={a.get('errors', '?')} skip={a.get('skipped', '?')}" for a in xml_suite_attrs(o))
         out += ["xmlerror " + e for e in errors]
     return out
 
@@ -419,6 +424,18 @@ def xml_testcases(o):
                 walk(c)
         walk(root)
     return cases, errors
+
+
+def xml_suite_attrs(o):
+    """attributes of the <testsuite> root of every per-suite file that parses"""
+    res = []
+    for fname, data in sorted(o.files.items()):
+        if "Testing/" in fname:
+            continue
+        root, err = parse_xml(data)
+        if root is not None and root.tag == "testsuite":
+            res.append(root.attrs)
+    return res
 
 
 def cdash_counts(o):
